@@ -383,7 +383,16 @@ def r04_7(ctx, prog, crate):
     optional_value_flags(ctx, "R04.7", prog, crate)
 
 
+def r04_8(ctx, prog, crate):
+    """(= R15.3) min_time and max_time are independent options of the command line: clap relates (overrides / conflicts /
+    requires) only the documented mode switches, so giving --max-time never drops a --min-time given next to it."""
+    from .C15 import r15_3
+    from .common import Renamed
+    r15_3(Renamed(ctx, "R04.8"), prog, crate)
+
+
 def run(ctx, prog, crate):
+    r04_8(ctx, prog, crate)
     r04_7(ctx, prog, crate)
     r04_5(ctx, prog, crate)
     S = Sampling(prog, crate)
